@@ -185,7 +185,7 @@ def Joined (es : List PEdge) (i j : Nat) : Prop :=
 def Drawn (w : World) (ms : List VId) (e : PEdge) (l : LId) : Prop :=
   ∃ a b rest, w.ends l = some a :: some b :: rest ∧ l ∈ w.links a ∧
     indexOf? ms a = some e.src ∧ indexOf? ms b = some e.dst ∧
-    e.arrows = ((w.lcls l).kind == .directed)
+    e.arrows = ((w.lcls l).subDirected)
 
 def Good (w : World) (ms : List VId) (e : PEdge) : Prop :=
   e.src < ms.length ∧ e.dst < ms.length ∧ ∃ l, Drawn w ms e l
@@ -252,7 +252,7 @@ theorem edgesOf_cons (w : World) (ms : List VId) (re : Option (LId → String)) 
       ∃ es1, edgesOf w ms re i v ls es1 = .ok es' ∧
         ((es1 = es ∧ ¬ (a = some v ∧ ∃ x j, b = some x ∧ indexOf? ms x = some j)) ∨
          (a = some v ∧ ∃ x j, b = some x ∧ indexOf? ms x = some j ∧
-            es1 = addEdge es i j ((w.lcls l).kind == .directed) (re.map (· l)))) := by
+            es1 = addEdge es i j ((w.lcls l).subDirected) (re.map (· l)))) := by
   simp only [edgesOf] at h
   split at h
   · cases h
@@ -366,7 +366,7 @@ theorem edgesOf_arrowed_ne (w : World) (ms : List VId) (re : Option (LId → Str
 theorem edgesOf_arrowed_eq (w : World) (ms : List VId) (re : Option (LId → String)) (i j : Nat)
     (a b : VId) (hb : ∀ x, indexOf? ms x = some j ↔ x = b) (ls : List LId) (es es' : List PEdge)
     (h : edgesOf w ms re i a ls es = .ok es') :
-    arrowed i j es' = arrowed i j es + (ls.filter (fun l => (w.lcls l).kind == .directed &&
+    arrowed i j es' = arrowed i j es + (ls.filter (fun l => (w.lcls l).subDirected &&
         (w.ends l).take 2 == [some a, some b])).length := by
   induction ls generalizing es with
   | nil => rw [edgesOf_nil _ _ _ _ _ _ _ h]; simp
@@ -374,8 +374,8 @@ theorem edgesOf_arrowed_eq (w : World) (ms : List VId) (re : Option (LId → Str
     obtain ⟨_, a', b', rest, hends, es1, h1, hc⟩ := edgesOf_cons _ _ _ _ _ _ _ _ _ h
     rw [ih _ h1, List.filter_cons]
     rcases hc with ⟨rfl, hno⟩ | ⟨ha', x, j', hx, hj', rfl⟩
-    · have : ((w.lcls l).kind == .directed && (w.ends l).take 2 == [some a, some b]) = false := by
-        cases hh : ((w.lcls l).kind == .directed && (w.ends l).take 2 == [some a, some b])
+    · have : ((w.lcls l).subDirected && (w.ends l).take 2 == [some a, some b]) = false := by
+        cases hh : ((w.lcls l).subDirected && (w.ends l).take 2 == [some a, some b])
         · rfl
         · exfalso
           simp only [Bool.and_eq_true, hends, List.take_succ_cons, List.take_zero, beq_iff_eq,
@@ -390,7 +390,7 @@ theorem edgesOf_arrowed_eq (w : World) (ms : List VId) (re : Option (LId → Str
         · intro hh; subst hh
           have := (hb x).mpr rfl
           rw [hj'] at this; simpa using this
-      by_cases hd : (w.lcls l).kind = .directed
+      by_cases hd : (w.lcls l).subDirected = true
       · by_cases hxb : x = b
         · have hj := hjj.mpr hxb
           simp [hd, hxb, hj, hends]
@@ -457,7 +457,7 @@ theorem allEdges_arrowed (w : World) (ms : List VId) (re : Option (LId → Strin
     (idx : List (Nat × VId)) (hidx : ∀ p ∈ idx, p.1 = i → p.2 = a) (es es' : List PEdge)
     (h : allEdges w ms re idx es = .ok es') :
     arrowed i j es' = arrowed i j es + (idx.filter (fun p => p.1 == i)).length *
-      ((w.links a).filter (fun l => (w.lcls l).kind == .directed &&
+      ((w.links a).filter (fun l => (w.lcls l).subDirected &&
         (w.ends l).take 2 == [some a, some b])).length := by
   induction idx generalizing es with
   | nil => rw [allEdges_nil _ _ _ _ _ h]; simp
